@@ -8,6 +8,7 @@ func init() {
 			"(incomplete gamma) shapes in [0.01,101] and 2-8 increasing x per case among 0, the branch boundary max(1,shape)·(1±{0,1e-15..0.1}), 1, shape, tiny (>=1e-300), large (<=1e5), around the shape, log-uniform; " +
 			"(discrete gamma) shapes in [0.01,100] x 2..32 categories, GenerateRates on 0-60 sites with every gamma/discrete flag combination; " +
 			"(weights for alignments that are not freshly built) generated contents of 2-6 rows x 3-40 (120 thorough) columns with constant, tied and all-gap columns; in two cases out of three the object is produced by a drawn provenance chain of up to 3 public operations ending on exactly that content (clone, touch, rename-cycle, cut-window, select-sites, trim-gap-ends, trim-constant-ends, drop-gap-rows, concat, append, reparse-fasta), in two cases out of three a history follows: a second object derived by Sample/SubAlign/SelectSites/Clone, a length-changing in-place operation (RemoveGapSites, TrimSequences, RemoveMajorityCharacterSites, RemoveCharacterSites; whole or ends) applied to ONE of the two and the weights drawn for the OTHER, or the operation applied to the object itself first; oracle: as many weights as every row read back by index has residues (and as the construction implies for an object no operation was applied to), each finite and > 0, sum = that number; " +
+			"(size class long vectors) a handful (30 quick) of flat weight vectors of 30 000-400 000 sites from both weight builders, Dirichlet with all parameters 1 and Dirichlet1 (total = number of values), under the weight-vector clause: one finite weight > 0 per site, sum = number of sites; " +
 			"(boundary values of the random source) 48 seeds of math/rand whose first 4096 raw outputs contain an extreme value (top 32 bits all zero / all one, Float64() < 1e-9 or > 1-1e-9; found by an offline scan of math/rand, tools/c20_hostile_seeds.go) x 6 samplers (both weight builders, Dirichlet with all parameters 1 / mixed / below 1, Dirichlet1) with enough sites for that output to be consumed, same oracles; " +
 			"(command line) goalign build weightboot on generated fasta/phylip/multi-alignment phylip/stdin inputs (FASTA in a drawn layout: wrapped lines, blank-separated blocks, CRLF, empty lines, no final newline), -n 1..25, --seed, -o (new file, or an existing file with a longer stale content). " +
 			"Oracle: one finite weight > 0 per site, |sum-L| <= 1e-9·L; Dirichlet values finite >= 0, |sum-total| <= 1e-9·total, error exactly for the invalid vectors; " +
@@ -17,6 +18,7 @@ func init() {
 			"Non-trivial: weights not all equal; Dirichlet vector with parameters on both sides of 1 (or an invalid vector, or a varied flat sample); incomplete gamma case with the shape on both sides of the x values, both evaluation branches used and the value moving by > 1e-3; >= 3 distinct category rates; distinct = distinct JSON form of the case",
 		Assumptions: []string{
 			"Dirichlet parameter vectors with fewer than 3 entries are invalid (Dirichlet tests len <= 2, Dirichlet1 documents 'nvalues should be > 2'); NaN and infinite parameters are outside the quantifier ([0.01,100]) and are not generated",
+			"Dirichlet1(n, n) and Dirichlet(n; 1,...,1) are judged under the weight-vector clause (every weight > 0) in the long-vector run: they are the two implementations of the D(n;1,...,1) site weights that the documentation of build weightboot describes (Dirichlet1 has no caller of its own in the tree); elsewhere Dirichlet samples are only required to be >= 0 (a parameter of 0.01 legitimately underflows to 0)",
 			"a weight is 'strictly positive' at the command line within the printed precision: %f prints a weight below 5e-7 as 0.000000 (counted as a class)",
 			"the reference values come from gonum mathext.GammaIncReg (an implementation unrelated to the AS32 routine) and from the defining series; the two references are required to agree within 1e-9 on every evaluated point",
 			"continuous (non discrete) rates of GenerateRates are not the subject of the statement: only their number is looked at",
@@ -33,6 +35,7 @@ func init() {
 			{Name: "incomplete-gamma", Test: "^TestIncompleteGamma$", Quick: 25000, Thorough: 120000, Shards: 4, TimeoutS: 300},
 			{Name: "discrete-gamma", Test: "^TestDiscreteGamma$", Quick: 20000, Thorough: 60000, Shards: 8, TimeoutS: 300},
 			{Name: "weights-history", Test: "^TestWeightsHistory$", Quick: 20000, Thorough: 100000, Shards: 4, TimeoutS: 300},
+			{Name: "long-vectors", Test: "^TestLongVectors$", Quick: 30, Thorough: 200, Shards: 2, TimeoutS: 300},
 			{Name: "hostile-seeds", Test: "^TestHostileSeeds$", Quick: 1, Thorough: 1, TimeoutS: 300},
 			{Name: "cli", Test: "^TestCLI$", Quick: 400, Thorough: 2000, Shards: 4, TimeoutS: 300},
 		},
